@@ -20,6 +20,7 @@ type C07Extra struct {
 	TwoDeleters    bool // one claim deleted twice; the newer delete is itself deleted (still deleted), or both are (not deleted)
 	Pre1970        bool // one claim dated before the Unix epoch
 	PathChain      bool // camliPath:<suffix> history: set, re-set to another target, del with value, del without value
+	DeepChain      bool // a delete/undelete chain of depth 5..9 on one attribute claim
 	ExtraDeletes   int  // delete claims on random attribute claims of the world (after the patterns were added)
 }
 
@@ -237,6 +238,25 @@ func ExtendC07(w *World, rng *rand.Rand, o C07Extra) {
 				del(1, older, ds[3], "delete") // both undone: target is not deleted
 			}
 			w.Features["c07-two-deleters"] = true
+		}
+	}
+	if o.DeepChain {
+		var attrClaims []ClaimInfo
+		for _, c := range w.Claims {
+			if c.Kind != "delete" {
+				attrClaims = append(attrClaims, c)
+			}
+		}
+		if len(attrClaims) > 0 {
+			target := attrClaims[rng.Intn(len(attrClaims))].Ref
+			tkind := "claim"
+			depth := 5 + rng.Intn(5)
+			for k := 0; k < depth; k++ {
+				// chain dates are NOT monotonic: a deleter may be dated before what it deletes
+				target = del(1, target, fresh(), tkind)
+				tkind = "delete"
+			}
+			w.Features["c07-deep-delete-chain"] = true
 		}
 	}
 	for i := 0; i < o.ExtraDeletes; i++ {
